@@ -426,6 +426,53 @@ def gen_sv_spec(rng, n, steps, loss, phimode):
             "weights": [rng.uniform(-1, 1) for _ in range(n + 2 * D_)]}
 
 
+def gen_sv_annihilation(rng, n, variant):
+    """Exact-annihilation situations for the two Lanczos runs of backward (on the state and on the cotangent):
+    H psi = 0 exactly, psi an exact eigenvector, H = 0 steps, cotangent a basis vector."""
+    steps = rng.choice([2, 3, 4])
+    loss = rng.choice(["state", "fidelity", "occupation", "occupation-mid"])
+    spec = gen_sv_spec(rng, n, steps, loss, rng.choice(["zero", "nonzero", "mixed"]))
+    D_ = 2 ** n
+    zero_row = [0.0] * n
+    spec["variant"] = variant
+    if rng.random() < 0.4:
+        spec["U"] = [[0.0] * n for _ in range(n)]
+    if variant == "lead-zero-omega":      # default |g..g>, amplitude zero on every atom in the first step(s): H psi = 0
+        spec["psi0"] = None
+        k = rng.choice([1, 1, 2]) if steps > 2 else 1
+        dmode = rng.choice(["zero", "nonzero"])
+        for s_ in range(k):
+            spec["omega"][s_] = list(zero_row)
+            if dmode == "zero":
+                spec["delta"][s_] = list(zero_row)
+    elif variant == "zero-H-step":        # a step with H = 0 (needs U = 0), any position, any state
+        spec["U"] = [[0.0] * n for _ in range(n)]
+        s_ = rng.randrange(steps)
+        spec["omega"][s_] = list(zero_row)
+        spec["delta"][s_] = list(zero_row)
+        if rng.random() < 0.5:
+            spec["psi0"] = None
+    elif variant == "eigen-psi0":         # a basis state and a diagonal first step: exact eigenvector (energy 0 or not)
+        b = rng.randrange(D_)
+        spec["psi0"] = [[1.0 if i == b else 0.0, 0.0] for i in range(D_)]
+        spec["omega"][0] = list(zero_row)
+        if rng.random() < 0.5:
+            spec["delta"][0] = list(zero_row)
+    elif variant == "basis-cotangent":    # loss = one amplitude of the final state, last step diagonal: H g = E g
+        spec["loss"] = "state"
+        b = rng.choice([0, rng.randrange(D_)])
+        spec["weights"] = [0.0] * n + [1.0 if i == b else 0.0 for i in range(D_)] + [0.0] * D_
+        spec["omega"][-1] = list(zero_row)
+        if rng.random() < 0.5:
+            spec["delta"][-1] = list(zero_row)
+    else:
+        raise ValueError(variant)
+    return spec
+
+
+SV_ANNIHILATION = ("lead-zero-omega", "lead-zero-omega", "zero-H-step", "eigen-psi0", "basis-cotangent")
+
+
 def dense_ref_loss(spec, tens):
     """Independent reference: the same piecewise-constant evolution with torch.linalg.matrix_exp of the dense
     Hamiltonian (float64, ordinary autograd; documented convention, shares no code with /repo) and the same loss."""
@@ -660,6 +707,9 @@ def seq_loss(spec, params, krylov_tolerance=1e-10):
     p = iter(params)
     for seg in spec["segments"]:
         T = seg["T"]
+        if seg.get("delay"):
+            seq.delay(T, "ch")
+            continue
 
         def wf(kind):
             if kind == "const":
@@ -668,6 +718,8 @@ def seq_loss(spec, params, krylov_tolerance=1e-10):
                 return RampWaveform(T, next(p), next(p))
             if kind == "blackman":
                 return BlackmanWaveform(T, next(p))
+            if kind == "zero":  # a literal zero amplitude (detuning-only pulse)
+                return ConstantWaveform(T, 0.0)
             raise ValueError(kind)
 
         amp = wf(seg["amp"])
@@ -680,9 +732,16 @@ def seq_loss(spec, params, krylov_tolerance=1e-10):
     return (res.occupation[-1] * wv).sum()
 
 
-def gen_seq_spec(rng):
-    n = rng.choice([1, 2, 2, 3])
+def gen_seq_spec(rng, lead=None):
+    """lead = "delay" / "detuning_only": the sequence starts with a wait (amplitude exactly zero on the default
+    ground state, H psi = 0 in the first steps), the standard way of writing 'wait, then pulse'."""
+    n = rng.choice([1, 2, 2, 3]) if lead is None else rng.choice([1, 2, 3, 4])
     segs, nparams, vals = [], 0, []
+    if lead == "delay":
+        segs.append({"T": rng.choice([40, 100]), "delay": True, "amp": "zero", "det": "zero"})
+    elif lead == "detuning_only":
+        segs.append({"T": rng.choice([40, 100]), "amp": "zero", "det": "const", "phase": 0.0})
+        vals.append(rng.uniform(-6.0, 6.0))
     for _ in range(rng.choice([1, 2, 2, 3])):
         amp = rng.choice(["const", "const", "ramp", "blackman"])
         det = rng.choice(["const", "ramp", "const"])
@@ -917,6 +976,16 @@ def run(ctx):
             s = sv_grad_check(ctx, sp, max_fd=ctx.n(4, 6) if n <= 4 else 3)
             sv_summ.append(s)
             ctx.count_case({"kind": "sv", **s}, nontrivial=n >= 2)
+    # exact-annihilation situations (H psi = 0, eigenvector states, H = 0 steps, basis-vector cotangents)
+    ann = {}
+    for i in range(ctx.n(10, 80)):
+        variant = SV_ANNIHILATION[i % len(SV_ANNIHILATION)]
+        spec = gen_sv_annihilation(rng, 1 + (i // len(SV_ANNIHILATION)) % 4, variant)
+        s = sv_grad_check(ctx, spec, max_fd=3)
+        sv_summ.append(s)
+        ann[f"{variant}/{s.get('outcome')}"] = ann.get(f"{variant}/{s.get('outcome')}", 0) + 1
+        ctx.count_case({"kind": "sv-annihilation", "variant": variant, **s}, nontrivial=True)
+    ctx.extra["sv_annihilation_runs"] = dict(sorted(ann.items()))
     ctx.extra["sv_gradient_runs"] = {"runs": len(sv_summ),
                                "worst_fraction_of_derived_bound(dense autograd, ok runs)":
                                    max([s.get("worst_fraction_of_bound", 0.0) for s in sv_summ if s.get("outcome") == "ok"] + [0.0]),
@@ -927,8 +996,9 @@ def run(ctx):
                                "outcomes": {o: sum(1 for s in sv_summ if s.get("outcome") == o)
                                             for o in sorted({s.get("outcome") for s in sv_summ})}}
     seq_summ = []
-    for _ in range(ctx.n(5, 40)):
-        spec = gen_seq_spec(rng)
+    seq_specs = [gen_seq_spec(rng, lead=("delay", "detuning_only")[i % 2]) for i in range(ctx.n(4, 16))]
+    seq_specs += [gen_seq_spec(rng) for _ in range(ctx.n(4, 30))]
+    for spec in seq_specs:
         s = seq_grad_check(ctx, spec)
         seq_summ.append(s)
         ctx.count_case({"kind": "seq", **s}, nontrivial=True)
